@@ -19,7 +19,7 @@ THEOREMS = [
     "c01_result_sound", "c01_never_foreign", "c01_foreign_kinds", "c01_timeout_complete",
     "c01_complete", "c01_single_request_written", "c01_id_type_sensitive", "c01_siblings_independent",
     "c01_connection_result_sound", "c01_connection_segments", "c01_client_result_sound", "c01_client_initialized_stays",
-    "c01_client_request_iff_initialized", "c01_client_uninitialized_initializes",
+    "c01_client_request_iff_initialized", "c01_client_uninitialized_initializes", "c01_result_sound_slow_callbacks",
 ]
 RULE = (
     "timed histories over {matching result, matching error, same-id server request, other-id response, int/str "
@@ -128,8 +128,6 @@ class Histories(Suite):
             return None
         if case.get("eos") is not None:
             return None  # end of stream is outside the model's (and the property's) histories: oracle only
-        if case.get("cbSleep"):
-            return None  # the model's callbacks are instantaneous: oracle only
         return H.model_line(case, o)
 
     def model_obs(self, out, case):
